@@ -19,6 +19,7 @@ func c18Canaries() []core.Canary {
 	return []core.Canary{{RelDir: "config/conffile", Name: "c18", Src: `package conffile
 
 import (
+	"bufio"
 	"os"
 	"strconv"
 )
@@ -46,7 +47,19 @@ func zzCanaryWrite(path, content string) error {
 	_, err = f.WriteString(content)
 	return err
 }
-`, Expect: []core.CanaryExpect{{Rule: "C18.map-guard", Sub: "zzCanaryGetShort"}, {Rule: "C18.getters", Sub: "zzCanaryGetShort"}, {Rule: "C18.atomic-write", Sub: "zzCanaryWrite"}}}}
+
+// drops what arrives with io.EOF
+func zzCanaryLines(r *bufio.Reader) (out []string) {
+	for {
+		s, err := r.ReadString('\n')
+		if err != nil {
+			break
+		}
+		out = append(out, s)
+	}
+	return out
+}
+`, Expect: []core.CanaryExpect{{Rule: "C18.map-guard", Sub: "zzCanaryGetShort"}, {Rule: "C18.getters", Sub: "zzCanaryGetShort"}, {Rule: "C18.atomic-write", Sub: "zzCanaryWrite"}, {Rule: "C18.last-line", Sub: "zzCanaryLines"}}}}
 }
 
 func runC18(p *core.Program, r *core.Report) {
@@ -65,6 +78,8 @@ func runC18(p *core.Program, r *core.Report) {
 	c18Observers(p, r)
 	r.Rule("C18.escape-all", "the escaping of values on the way into the file is applied to every occurrence (strings.Replace with a negative count): written values read back unchanged", 1)
 	c18EscapeAll(p, r)
+	r.Rule("C18.last-line", "the line-by-line rewrite loses no line: text a reader returns together with the end-of-file error (a last line without newline) is handled on the error path", 0)
+	c18LastLine(p, r, "C18.last-line")
 	c18Decimal(p, r)
 	c18SyncWrite(p, r)
 	c18MapGuard(p, r)
@@ -880,4 +895,111 @@ func helperStoresInto(p *core.Program, info *types.Info, call *ast.CallExpr, i, 
 		return true
 	})
 	return found
+}
+
+// c18LastLine: the write-back copies the file line by line; every line survives, the last one too. A
+// reader call that can hand back text TOGETHER with the end-of-file error (bufio.Reader.ReadString /
+// ReadBytes: a last line without a newline) must have that text looked at on the error path: an
+// `if err != nil { …; break }` that leaves the loop without mentioning what was read drops the last
+// line of every file that does not end in a newline. (ReadLine and Scanner never return both.)
+func c18LastLine(p *core.Program, r *core.Report, rule string) {
+	for _, fi := range p.Funcs {
+		if fi.Decl.Body == nil || core.RelPkg(fi.Pkg.PkgPath) != "config/conffile" {
+			continue
+		}
+		info := fi.Pkg.TypesInfo
+		ast.Inspect(fi.Decl.Body, func(n ast.Node) bool {
+			blk, ok := n.(*ast.BlockStmt)
+			if !ok {
+				return true
+			}
+			for i, st := range blk.List {
+				as, ok := st.(*ast.AssignStmt)
+				if !ok || len(as.Lhs) != 2 || len(as.Rhs) != 1 {
+					continue
+				}
+				call, ok := ast.Unparen(as.Rhs[0]).(*ast.CallExpr)
+				if !ok {
+					continue
+				}
+				fn := calleeFunc(info, call)
+				if fn == nil || fn.Pkg() == nil || fn.Pkg().Path() != "bufio" || (fn.Name() != "ReadString" && fn.Name() != "ReadBytes") {
+					continue
+				}
+				did, ok1 := as.Lhs[0].(*ast.Ident)
+				eid, ok2 := as.Lhs[1].(*ast.Ident)
+				if !ok1 || !ok2 || did.Name == "_" || eid.Name == "_" {
+					continue
+				}
+				derived := map[types.Object]bool{info.ObjectOf(did): true}
+				errObj := info.ObjectOf(eid)
+				mentions := func(n ast.Node) bool {
+					found := false
+					ast.Inspect(n, func(m ast.Node) bool {
+						if id, ok := m.(*ast.Ident); ok && derived[info.ObjectOf(id)] {
+							found = true
+						}
+						return !found
+					})
+					return found
+				}
+				c := core.FuncName(fi.Obj) + " " + fn.Name()
+				judged := false
+				for _, nx := range blk.List[i+1:] {
+					// locals computed from the text carry it
+					if a2, ok := nx.(*ast.AssignStmt); ok {
+						for k, rh := range a2.Rhs {
+							if mentions(rh) && k < len(a2.Lhs) {
+								if lid, ok := a2.Lhs[k].(*ast.Ident); ok {
+									derived[info.ObjectOf(lid)] = true
+								}
+							}
+						}
+						continue
+					}
+					ifs, ok := nx.(*ast.IfStmt)
+					if !ok {
+						if mentions(nx) {
+							break // the text is used before the error is looked at
+						}
+						continue
+					}
+					be, ok := ast.Unparen(ifs.Cond).(*ast.BinaryExpr)
+					if !ok || be.Op != token.NEQ {
+						if mentions(ifs) {
+							break
+						}
+						continue
+					}
+					x, isId := ast.Unparen(be.X).(*ast.Ident)
+					if !isId || info.ObjectOf(x) != errObj {
+						if mentions(ifs) {
+							break
+						}
+						continue
+					}
+					leaves := false
+					if len(ifs.Body.List) > 0 {
+						switch l := ifs.Body.List[len(ifs.Body.List)-1].(type) {
+						case *ast.BranchStmt:
+							leaves = l.Tok == token.BREAK
+						case *ast.ReturnStmt:
+							leaves = true
+						}
+					}
+					judged = true
+					if leaves && !mentions(ifs.Body) {
+						r.Viol(rule, c, p.Pos(call.Pos()), "the text "+fn.Name()+" returns together with the end-of-file error is never looked at: the branch taken on the error leaves the loop without it, so a last line without a newline is dropped from the rewritten file")
+					} else {
+						r.OK(rule, c, p.Pos(call.Pos()), "what arrives with the error is handled")
+					}
+					break
+				}
+				if !judged {
+					r.OK(rule, c, p.Pos(call.Pos()), "the text is used before the error is tested")
+				}
+			}
+			return true
+		})
+	}
 }
